@@ -35,7 +35,7 @@ func init() {
 		ID:    "C05",
 		Level: "model_checking",
 		Rule: "explicit-state BFS over setter histories executed on the real *Url with the reference model in lock-step: 16 start URLs x alphabet of ~130 setter operations (per-setter value menus hitting every early return of the override paths), " +
-			"states deduplicated by a generic deep snapshot of the private state; plus every single setter call with every value of Sigma^<=k on every start URL. After every call Href and the nine getters must equal the model's. " +
+			"states deduplicated by a generic deep snapshot of the private state; plus every single setter call with every value of Sigma^<=k, every string/character literal and every integer bound (v-1, v, v+1) of the current library source on every start URL. After every call Href and the nine getters must equal the model's. " +
 			"non-trivial = a transition that reaches a previously unseen state (or, in the value sweep, a call that changes the URL)",
 		Assume:  []string{"reference model fidelity (validated against 238 vendored WPT setter vectors and 781 parse vectors on every run)", "IDNA delegated"},
 		Trusted: []string{"verif/model", "vendored WPT vectors"},
@@ -66,6 +66,36 @@ func init() {
 				b0, _ := obsOf(before)
 				for _, st := range setterOrder {
 					start, st := start, st
+					strs, ints := sourceLiterals()
+					sweep := func(val string) {
+						if !c.Mine() || c.Expired() {
+							return
+						}
+						ops := []Op{{Kind: st, A: val}}
+						w := Replay(start, ops)
+						c.Eval()
+						c.R.Transitions++
+						c.R.Traces++
+						if f := c05Check(c, start, ops, w); f != nil {
+							c.Report(f, func() *fw.Case { return &fw.Case{Kind: "hist-c05", S: fw.Strs(start), Ops: opsToQS(ops)} })
+							return
+						}
+						if a, _ := obsOf(w); a != b0 {
+							c.Nontrivial()
+							c.StateHash(fw.Hash(w.Key()))
+						}
+					}
+					// values taken from the current source: every string / character literal, every integer bound
+					for _, v := range strs {
+						sweep(v)
+						sweep("h" + v)
+						sweep(v + "/x")
+					}
+					for _, v := range ints {
+						sweep(v)
+						sweep("h:" + v)
+						sweep("1.2.3." + v)
+					}
 					enum.Raw(enum.General, k, func(s []byte) {
 						if !c.Mine() || c.Expired() {
 							return
